@@ -28,35 +28,35 @@ Proof.
   - intros t Hsz k.
     assert (Hraw: forall (G:rtok -> list A -> list A), True) by auto. clear Hraw.
     destruct t as [l|v|nm|s a|j s l r|es|ss|a].
-    + cbn [pr lvl]. destruct (k <=? N)%nat; reflexivity.
-    + cbn [pr lvl]. destruct (k <=? N)%nat; reflexivity.
-    + cbn [pr lvl]. destruct (k <=? N)%nat; reflexivity.
-    + cbn [size] in Hsz. cbn [pr lvl]. destruct (k <=? N)%nat; cbn [map]; rewrite ?map_app; cbn [map]; rewrite IHt by lia; reflexivity.
+    + cbn [pr lvl]. destruct (k <=? NLEV)%nat; reflexivity.
+    + cbn [pr lvl]. destruct (k <=? NLEV)%nat; reflexivity.
+    + cbn [pr lvl]. destruct (k <=? NLEV)%nat; reflexivity.
+    + cbn [size] in Hsz. cbn [pr lvl]. destruct (k <=? NLEV)%nat; cbn [map]; rewrite ?map_app; cbn [map]; rewrite IHt by lia; reflexivity.
     + cbn [size] in Hsz. cbn [pr lvl]. destruct (k <=? j)%nat; cbn [map]; rewrite ?map_app; cbn [map]; rewrite ?map_app; cbn [map];
         rewrite !IHt by lia; reflexivity.
     + change (size (Arr es)) with (S (fold_right (fun e n => (size e + n)%nat) 0%nat es)) in Hsz.
       assert (Hm: map F (join [RComma] (map (pr I lay 0%nat) es)) = join [F RComma] (map (pr F lay 0%nat) es)).
       { rewrite map_join. cbn [map]. f_equal. rewrite map_map. apply map_ext_in. intros e He.
         pose proof (size_in e es He). apply IHt. lia. }
-      cbn [pr lvl]. destruct (k <=? N)%nat; cbn [map]; rewrite ?map_app; cbn [map]; rewrite ?map_app; cbn [map]; rewrite Hm; reflexivity.
+      cbn [pr lvl]. destruct (k <=? NLEV)%nat; cbn [map]; rewrite ?map_app; cbn [map]; rewrite ?map_app; cbn [map]; rewrite Hm; reflexivity.
     + change (size (Code ss)) with (S (fold_right (fun s n => (size_stmt s + n)%nat) 0%nat ss)) in Hsz.
       assert (Hm: map F (pr_block I lay ss) = pr_block F lay ss).
       { unfold pr_block. rewrite !map_app, !seps_map. f_equal. f_equal.
         rewrite map_join. unfold mid. rewrite seps_map. f_equal. rewrite map_map. apply map_ext_in. intros s Hs.
         pose proof (size_stmt_in s ss Hs). apply IHs. lia. }
-      change (pr I lay k (Code ss)) with (if (k <=? N)%nat then RCurlyO :: pr_block I lay ss ++ [RCurlyC]
+      change (pr I lay k (Code ss)) with (if (k <=? NLEV)%nat then RCurlyO :: pr_block I lay ss ++ [RCurlyC]
                                            else RRoundO :: (RCurlyO :: pr_block I lay ss ++ [RCurlyC]) ++ [RRoundC]).
-      change (pr F lay k (Code ss)) with (if (k <=? N)%nat then F RCurlyO :: pr_block F lay ss ++ [F RCurlyC]
+      change (pr F lay k (Code ss)) with (if (k <=? NLEV)%nat then F RCurlyO :: pr_block F lay ss ++ [F RCurlyC]
                                            else F RRoundO :: (F RCurlyO :: pr_block F lay ss ++ [F RCurlyC]) ++ [F RRoundC]).
-      destruct (k <=? N)%nat; cbn [map]; rewrite ?map_app; cbn [map]; rewrite ?map_app; cbn [map]; rewrite Hm; reflexivity.
-    + cbn [size] in Hsz. cbn [pr lvl]. destruct (k <=? N)%nat; cbn [map]; rewrite ?map_app; cbn [map]; rewrite ?map_app; cbn [map];
+      destruct (k <=? NLEV)%nat; cbn [map]; rewrite ?map_app; cbn [map]; rewrite ?map_app; cbn [map]; rewrite Hm; reflexivity.
+    + cbn [size] in Hsz. cbn [pr lvl]. destruct (k <=? NLEV)%nat; cbn [map]; rewrite ?map_app; cbn [map]; rewrite ?map_app; cbn [map];
         rewrite IHt by lia; reflexivity.
   - intros s Hsz. rewrite size_stmt_unfold in Hsz.
     destruct s as [e|x e|x e].
     + change (pr_stmt I lay (SExpr e)) with (pr I lay 0%nat e). change (pr_stmt F lay (SExpr e)) with (pr F lay 0%nat e).
       apply IHt. lia.
-    + change (pr_stmt I lay (SAssign x e)) with (pr I lay N x ++ REqual :: pr I lay 0%nat e).
-      change (pr_stmt F lay (SAssign x e)) with (pr F lay N x ++ F REqual :: pr F lay 0%nat e).
+    + change (pr_stmt I lay (SAssign x e)) with (pr I lay NLEV x ++ REqual :: pr I lay 0%nat e).
+      change (pr_stmt F lay (SAssign x e)) with (pr F lay NLEV x ++ F REqual :: pr F lay 0%nat e).
       rewrite map_app. cbn [map]. rewrite !IHt by lia. reflexivity.
     + change (pr_stmt I lay (SLocal x e)) with (RPrivate kw_private :: RIdent x :: REqual :: pr I lay 0%nat e).
       change (pr_stmt F lay (SLocal x e)) with (F (RPrivate kw_private) :: F (RIdent x) :: F REqual :: pr F lay 0%nat e).
